@@ -48,6 +48,7 @@ type Exec struct {
 	pendingClosure *Closure
 	quantDepth int
 	curFlagGuard string
+	canaries [][]Term
 	curInstr ssa.Instruction
 	ordTab map[*ssa.Function]map[ssa.Instruction]int
 }
